@@ -1,10 +1,10 @@
     // every packet struct of zvt/src/packets.rs (definitions only; payloads are data for the sequences)
-    use super::NaiveDateTime;
+    use crate::NaiveDateTime;
     pub struct PartialReversalReceiptNo;
     //@ items src:zvt/src/packets.rs | structs except=Ack,PartialReversalReceiptNo
     pub mod tlv {
         use vstd::prelude::*;
-        use super::super::NaiveDateTime;
+        use crate::NaiveDateTime;
         //@ items src:zvt/src/packets/tlv.rs | structs
         //@ include $EXTRA_TLV
     }
